@@ -16,7 +16,7 @@
  * Mode "render" (built with -DC20_WITH_RENDER): the REAL, verbatim text of gsm48_rr_render_ma (layer23 src/mobile/gsm48_rr.c,
  *   c20_render_fn.inc) with the REAL struct gsm48_rr_cd of include/osmocom/bb/mobile/gsm48_rr.h.  STUBBED: struct osmocom_ms /
  *   gsm322_cellsel / gsm_settings reduced to the members the function touches (cellsel.arfcn, cellsel.si, settings.freq_map:
- *   every frequency supported), gsm_refer_pcs (false), gsm_print_arfcn (""), arfcn2index (arfcn & 1023),
+ *   every frequency supported unless mode "renderband" gives the map), gsm_print_arfcn ("");  gsm_refer_pcs and arfcn2index are REAL texts,
  *   gsm48_decode_freq_list (mode "render": never reached, cell_desc_lv[0] = 0).  cd->h = 1, the three other list members are empty.
  * Mode "rendercd" (built with -DC20_REAL_FREQ_LIST and the vendored libosmocore src/gsm/gsm48_ie.c linked in): the same with
  *   cd->cell_desc_lv given and the REAL gsm48_decode_freq_list.
@@ -115,6 +115,10 @@ static long tok[MAXTOK];
 #define ASAN_POISON_MEMORY_REGION(a, n) ((void)(a), (void)(n))
 #endif
 #define SI4_MSG_SIZE ((int)sizeof(((struct gsm48_sysinfo *)0)->si4_msg))
+#include <osmocom/gsm/gsm_utils.h>
+#ifndef ARFCN_FLAG_MASK
+#define ARFCN_FLAG_MASK 0xf000
+#endif
 
 static int run_hist(int n, FILE *out)
 {
@@ -178,14 +182,19 @@ struct osmocom_ms;
 struct gsm322_cellsel { int selected; int neighbour; uint16_t arfcn; struct gsm48_sysinfo *si; };
 struct gsm_settings { uint8_t freq_map[128 + 38]; };
 struct osmocom_ms { struct gsm48_rrlayer rrlayer; struct gsm322_cellsel cellsel; struct gsm_settings settings; struct { uint32_t last_fn; } meas; };
-bool gsm_refer_pcs(uint16_t cell_arfcn, const struct gsm48_sysinfo *cell_s) { (void)cell_arfcn; (void)cell_s; return false; }
+/* gsm_refer_pcs (sysinfo.c) and arfcn2index (gsm322.c): REAL, verbatim texts in c20_band_fn.inc; the harness drives gsm_refer_pcs through
+ * cs->arfcn (ARFCN_PCS set or not; s->si1 = 0) */
+#ifndef ARFCN_FLAG_MASK
+#define ARFCN_FLAG_MASK 0xf000
+#endif
+int arfcn2index(uint16_t arfcn);
+#include "c20_band_fn.inc"
 char *gsm_print_arfcn(uint16_t arfcn) { (void)arfcn; return ""; }
 static int freq_list_called;
 #ifndef C20_REAL_FREQ_LIST
 int gsm48_decode_freq_list(struct gsm_sysinfo_freq *f, uint8_t *cd, uint8_t len, uint8_t mask, uint8_t frqt)
 { (void)f; (void)cd; (void)len; (void)mask; (void)frqt; freq_list_called = 1; return 0; }
 #endif
-static int arfcn2index(uint16_t arfcn) { return arfcn & 1023; }
 
 #include "c20_render_fn.inc"
 
@@ -232,9 +241,23 @@ static int run_render(int n, FILE *out)
 #ifdef C20_REAL_FREQ_LIST
 /* the inline msgb helpers pulled in by the vendored gsm48_ie.c refer to it */
 void osmo_panic(const char *fmt, ...) { (void)fmt; abort(); }
+static int band_mode;	/* mode "renderband": the line starts with  pcs hl0 hfill bg nfm fm_0 ..  and continues like "rendercd" behind bg */
 static int run_rendercd(int n, FILE *out)
 {
 	long hl0, hfill, bg, nlv, ncd, no; int i, k, np, at;
+	long pcs = 0; static uint8_t fmap[128 + 38]; int have_fm = 0;
+	if (band_mode) {
+		if (n < 5 || tok[4] != (long)sizeof(fmap) || n < 5 + (int)sizeof(fmap) + 4) return -1;
+		pcs = tok[0];
+		for (i = 0; i < (int)sizeof(fmap); i++) { if (tok[5 + i] < 0 || tok[5 + i] > 255) return -1; fmap[i] = tok[5 + i]; }
+		have_fm = 1;
+		/* shift the line so that the rest parses like "rendercd":  hl0 hfill bg nlv ... */
+		long h = tok[1], f = tok[2], b = tok[3];
+		int drop = 2 + (int)sizeof(fmap);
+		for (i = 3; i + drop < n; i++) tok[i] = tok[i + drop];
+		tok[0] = h; tok[1] = f; tok[2] = b;
+		n -= drop;
+	}
 	if (n < 4) return -1;
 	hl0 = tok[0]; hfill = tok[1]; bg = tok[2]; nlv = tok[3];
 	if (hl0 < 0 || hl0 > 255 || bg < 0 || bg > 255 || nlv != LV_SIZE || nlv >= n - 4 || hfill < 0 || hfill > 65535) return -1;
@@ -260,6 +283,8 @@ static int run_rendercd(int n, FILE *out)
 	ms->cellsel.si = s;
 	memset(ms->settings.freq_map, 0xff, sizeof(ms->settings.freq_map));
 	cd->h = 1;
+	if (have_fm) memcpy(ms->settings.freq_map, fmap, sizeof(fmap));
+	ms->cellsel.arfcn = pcs ? (600 | ARFCN_PCS) : 871;
 	for (i = 0; i < nlv; i++) cd->mob_alloc_lv[i] = tok[4 + i];
 	for (i = 0; i < ncd; i++) cd->cell_desc_lv[i] = tok[5 + nlv + i];
 	for (i = 0; i < FREQ_SIZE; i++) s->freq[i].mask = bg;
@@ -461,6 +486,7 @@ int main(int argc, char **argv)
 		       (int)(C20_MOB_ALLOC_LV_SIZE),	/* the bound as written in gsm48_rr.h */
 #endif
 		       (int)GSM48_RR_CAUSE_NO_CELL_ALLOC_A, SI4_MSG_SIZE, (int)GSM48_RR_CAUSE_ABNORMAL_UNSPEC, (int)(CD_SIZE ? CD_SIZE : C20_CELL_DESC_LV_SIZE));
+		printf("%d %d %d %d\n", (int)ARFCN_PCS, (int)ARFCN_FLAG_MASK, (int)GSM48_RR_CAUSE_FREQ_NOT_IMPL, C20_FREQ_MAP_SIZE);
 		return 0;
 	}
 	int render = argc > 1 && !strcmp(argv[1], "render");
@@ -468,6 +494,7 @@ int main(int argc, char **argv)
 	int assign = argc > 1 && !strcmp(argv[1], "assign");
 	int rendercd = argc > 1 && !strcmp(argv[1], "rendercd");
 	int freqlist = argc > 1 && !strcmp(argv[1], "freqlist");
+	if (argc > 1 && !strcmp(argv[1], "renderband")) { rendercd = 1; band_mode = 1; }
 	long caseno = 0;
 	while (fgets(line, sizeof(line), stdin)) {
 		int n = parse(line);
